@@ -8,6 +8,7 @@ package props
 
 import (
 	"fmt"
+	"strings"
 
 	"verif/harness/internal/ev"
 )
@@ -26,9 +27,28 @@ type opsFinding struct {
 // opsClassify derives the findings of one point.
 func opsClassify(p opsPoint, s, g opsOutcome) []opsFinding {
 	var out []opsFinding
-	cls := fmt.Sprintf("%s [%s, %s]", opsOpClass(p), opsOperandClass(p.X), opsOperandClass(p.Y))
+	// class of a point for finding keys: operator class + constness pattern of the operands + the operand kinds involved
+	pat := func(src string) string {
+		c := opsOperandClass(src)
+		switch {
+		case strings.HasPrefix(c, "var:"):
+			return "var"
+		case strings.HasPrefix(c, "tconst:"):
+			return "typed-const"
+		case strings.HasPrefix(c, "uconst:"):
+			return "untyped-" + strings.TrimSuffix(strings.SplitN(c[7:], "(", 2)[0], ")") + "-const"
+		}
+		return c
+	}
+	cls := fmt.Sprintf("%s [%s, %s]", opsOpClass(p), pat(p.X), pat(p.Y))
 	if p.Family == "unary" {
-		cls = fmt.Sprintf("%s [%s]", opsOpClass(p), opsOperandClass(p.X))
+		cls = fmt.Sprintf("%s [%s]", opsOpClass(p), pat(p.X))
+	}
+	if p.Family == "conv" {
+		cls = fmt.Sprintf("conversion [%s -> %s]", opsOperandClass(p.X), p.Y)
+	}
+	if strings.Contains(opsOperandClass(p.X)+opsOperandClass(p.Y), "float64") {
+		cls += "+float64-operand"
 	}
 	desc := fmt.Sprintf("`%s`: Go (Ops.tla = go/types): %v; builder: %v", p.text(), s, g)
 	bothConst := opsIsConst(p.X) && (p.Family == "unary" || p.Family == "conv" || opsIsConst(p.Y))
@@ -47,7 +67,11 @@ func opsClassify(p opsPoint, s, g opsOutcome) []opsFinding {
 		out = append(out, opsFinding{"C02", "rejected-valid/" + cls, desc})
 	case s.Kind == "ok" && g.Kind == "ok":
 		if s.Type != g.Type {
-			out = append(out, opsFinding{"C03", fmt.Sprintf("type %s reported as %s/%s", s.Type, g.Type, cls), desc})
+			cc := "variable-involved"
+			if bothConst {
+				cc = "constant-operands"
+			}
+			out = append(out, opsFinding{"C03", fmt.Sprintf("type %s reported as %s [%s, %s]", s.Type, g.Type, cc, p.Family), desc})
 		}
 		if (s.Const == "") != (g.Const == "") {
 			out = append(out, opsFinding{"C04", fmt.Sprintf("constness(go=%v,builder=%v)/%s", s.Const != "", g.Const != "", cls), desc})
